@@ -156,6 +156,15 @@ class FloatLiteral(FilterExpressionLiteral[float]):
 
     __slots__ = ()
 
+    def __str__(self) -> str:
+        text = repr(self.value).lower()
+        if "e" in text and "." not in text:
+            # `1e+16` would be read back as an integer literal. Keep a
+            # fraction so the literal stays a float when parsed again.
+            mantissa, exponent = text.split("e")
+            return f"{mantissa}.0e{exponent}"
+        return text
+
 
 class NullLiteral(FilterExpressionLiteral[None]):
     """A null literal."""
